@@ -626,6 +626,13 @@ impl World {
         self.r = Some(t);
     }
 
+    /// forget a receive transaction whose task died: the next PDU starts a new one
+    pub fn respawn_receiver(&mut self) {
+        self.r = None;
+        self.r_dead = false;
+        self.r_final = false;
+    }
+
     pub fn life(&self, side: Side) -> Life {
         let (dead, st) = match side {
             Side::S => (self.s_dead, self.s.as_ref().map(|t| t.verif_get_state())),
@@ -688,10 +695,13 @@ impl World {
             LinkId::RS => &self.sent_rs,
         }
     }
-    /// can anything still be handed to `side`? (the receiver is spawned by the first PDU)
+    /// can anything still be handed to `side`? (the receiver is spawned by the first PDU; a receive
+    /// task that died of an error is replaced by a fresh one on the next PDU, as
+    /// Daemon::forward_pdu does when the command channel of the old task is closed)
     fn target_open(&self, side: Side) -> bool {
         match self.life(side) {
             Life::NotCreated => side == Side::R,
+            Life::Dead => side == Side::R,
             l => l.live(),
         }
     }
@@ -958,7 +968,7 @@ impl World {
         if self.life(Side::S).over() {
             self.link_rs.clear();
         }
-        if self.life(Side::R).over() {
+        if self.life(Side::R) == Life::Terminated {
             self.link_sr.clear();
         }
     }
@@ -972,6 +982,9 @@ impl World {
     fn deliver_pdu(&mut self, to: Side, pdu: PDU, rec: &mut StepRec) {
         if !self.target_open(to) {
             return;
+        }
+        if to == Side::R && self.r_dead {
+            self.respawn_receiver();
         }
         if to == Side::R && self.r.is_none() {
             self.spawn_receiver(&pdu.header);
